@@ -40,6 +40,10 @@ func BuildProjectMethodMap(clzs []core_domain.CodeDataStruct) map[string]int {
 	var maps = make(map[string]int)
 	for _, clz := range core_domain.WithInnerStructures(clzs) {
 		for _, method := range clz.Functions {
+			if method.Name == "" {
+				// the nameless entry holds the calls of field initialisers: the project declares no such method
+				continue
+			}
 			maps[method.BuildFullMethodName(clz)] = 1
 		}
 	}
@@ -51,6 +55,9 @@ func BuildMethodCallMap(dataStructs []core_domain.CodeDataStruct, projectMaps ma
 	var methodCallMap = make(map[string][]string)
 	for _, clz := range core_domain.WithInnerStructures(dataStructs) {
 		for _, method := range clz.Functions {
+			if method.Name == "" {
+				continue
+			}
 			var caller = method.BuildFullMethodName(clz)
 			for _, jMethodCall := range method.FunctionCalls {
 				if jMethodCall.NodeName != "" {
